@@ -48,6 +48,7 @@ var pkgRules = map[string]map[string]rule{
 	},
 	"net/http":    {"Post": {"vhttp", ""}},
 	"crypto/rand": {"Read": {"vrand", ""}},
+	"math/rand":   {"Intn": {"vrand", ""}},
 	"os/exec":     {"Command": {"vexec", ""}, "Cmd": {"vexec", ""}},
 	"time":        {"Now": {"vtime", ""}, "Since": {"vtime", ""}, "Until": {"vtime", ""}, "AfterFunc": {"vtime", ""}},
 	"golang.org/x/telemetry/internal/configstore": {"Download": {"vconfigstore", ""}},
@@ -68,7 +69,7 @@ type pkgSpec struct {
 }
 
 var specs = []pkgSpec{
-	{"/repo", "./internal/counter", []string{"sync/atomic", "sync", "os", "os.File", "golang.org/x/telemetry/internal/mmap", "time"}},
+	{"/repo", "./internal/counter", []string{"sync/atomic", "sync", "os", "os.File", "golang.org/x/telemetry/internal/mmap", "time", "math/rand"}},
 	{"/repo", ".", []string{"os", "os.File", "os/exec", "time"}},
 	{"/repo", "./internal/upload", []string{"os", "os.File", "net/http", "crypto/rand", "golang.org/x/telemetry/internal/configstore"}},
 	{"/repo", "./internal/telemetry", []string{"os"}},
